@@ -137,6 +137,7 @@ class Compiler:
         self.rec_methods = {}   # (cls, method) -> (obj, method, fn(fields) -> [leading args])
         self.ctors = {}         # name -> fn(args, kwargs) -> rexpr
         self.unroll = {}        # object name -> universe size (for loops over dict values)
+        self.ref_exc = {}       # object name -> exception class raised by `raise <that object>`
 
     # ------------------------------------------------------------------ entry
     def compile_call(self, obj, method, args_rexpr, end_label="end"):
@@ -176,6 +177,23 @@ class Compiler:
         for e in raises:
             n.exc[e] = self.raise_to(e, ctx)
         return n
+
+    def save_value(self, r, tmp, assigns):
+        """Copy the dynamic parts of value `r` into temps named after `tmp`; returns the saved value."""
+        if r[0] == "v":
+            assigns.append((tmp, r))
+            return ("v", tmp)
+        if r[0] == "rec":
+            fields = {}
+            for f, fv in r[2].items():
+                fields[f] = fv if fv[0] == "c" else self.save_value(fv, f"{tmp}#{f}", assigns)
+            return ("rec", r[1], fields)
+        if r[0] in ("tuple", "list"):
+            return (r[0], [x if x[0] in ("c", "o") else self.save_value(x, f"{tmp}.{i}", assigns) for i, x in enumerate(r[1])])
+        if r[0] in ("c", "o", "meth", "bound"):
+            return r
+        assigns.append((tmp, r))
+        return ("v", tmp)
 
     def deref(self, r, ctx, k, exc):
         """r = ('rec', 'Ref:<obj>', {'?': present}): continue with the object, or raise `exc` when None."""
@@ -225,6 +243,8 @@ class Compiler:
             else:
                 env[p] = ("v", f"{frame}.{p}")
                 pre.append((f"{frame}.{p}", v))
+        if fdef.args.kwarg is not None:
+            env[fdef.args.kwarg.arg] = ("c", "<kwargs>")
         if fdef.args.vararg is not None:
             env[fdef.args.vararg.arg] = ("tuple", list(args[len(params):]))
         elif len(args) > len(params):
@@ -317,8 +337,11 @@ class Compiler:
                     if r[2][f] != fields[f]:
                         node = Node("assign", target=fields[f][1], value=r[2][f], next=node)
                 return node
-            if r[0] in ("meth", "bound"):
+            if r[0] in ("meth", "bound", "list", "tuple"):
                 ctx.env[t.id] = r
+                return k()
+            if r[0] == "c" and isinstance(r[1], float):
+                ctx.env[t.id] = r  # clock/back-off arithmetic stays a compile-time constant (time is abstracted)
                 return k()
             if r[0] in ("c",) and isinstance(r[1], str):
                 ctx.env[t.id] = r  # opaque text / tags stay compile-time constants
@@ -496,8 +519,18 @@ class Compiler:
             return self.raise_to(cur, ctx.outer_for_reraise)
         name = s.exc.func.id if isinstance(s.exc, ast.Call) and isinstance(s.exc.func, ast.Name) else \
             (s.exc.id if isinstance(s.exc, ast.Name) else None)
+        if name is not None and name in ctx.env:
+            name = None  # `raise e` of a local
         if name is None:
-            raise Unsupported("raise of computed exception")
+            def after(r):
+                if r[0] == "rec" and r[1].startswith("Ref:"):
+                    return self.raise_to(self.ref_exc.get(r[1][4:], "Exception"), ctx)
+                if r[0] == "rec" and r[1] == "Exc":
+                    return self.raise_to("Exception", ctx)
+                if r[0] == "c" and isinstance(r[1], tuple) and r[1][0] == "exc":
+                    return self.raise_to(r[1][1], ctx)
+                raise Unsupported("raise of computed exception")
+            return self.expr(s.exc, ctx, after)
         return self.raise_to(name, ctx)
 
     def s_Try(self, s, ctx, k):
@@ -520,7 +553,12 @@ class Compiler:
             if r[0] in ("c", "o"):
                 return wrap_fin(lambda: ctx.ret_k(r), outer)
             tmp = ctx.local(f"$ret{next(self.tmp)}")
-            return Node("assign", target=tmp, value=r, next=wrap_fin(lambda: ctx.ret_k(("v", tmp)), outer))
+            assigns = []
+            saved = self.save_value(r, tmp, assigns)
+            node = wrap_fin(lambda: ctx.ret_k(saved), outer)
+            for tgt, val in reversed(assigns):
+                node = Node("assign", target=tgt, value=val, next=node)
+            return node
 
         loops = [(lambda b=b: wrap_fin(b, outer), lambda c=c: wrap_fin(c, outer)) for b, c in ctx.loops]
 
@@ -754,6 +792,57 @@ class Compiler:
             return self.expr(e.elts[i], ctx, lambda r: chain(i + 1, acc + [r]))
         return chain(0, [])
 
+    def e_ListComp(self, e, ctx, k):
+        # only `[p.<attr> for p in list(X.values())]`: the set of (sentinels of) the registered workers
+        if len(e.generators) == 1 and not e.generators[0].ifs and isinstance(e.elt, ast.Attribute) \
+                and isinstance(e.elt.value, ast.Name) and isinstance(e.generators[0].target, ast.Name) \
+                and e.elt.value.id == e.generators[0].target.id:
+            src, snap = self.values_source(e.generators[0].iter)
+            if src is not None:
+                def after_obj(o):
+                    if o[0] != "o":
+                        raise Unsupported("comprehension over dynamic object")
+                    return self.prim_call(o[1], "__snapshot__", [], {}, ctx,
+                                          lambda r: k(("tuple", [("c", "maskof"), ("c", e.elt.attr), r[2]["mask"]])))
+                return self.expr(src, ctx, after_obj)
+        raise Unsupported(f"list comprehension (line {e.lineno})")
+
+    def reduce_over_values(self, fname, gen, ctx, k):
+        """sum(...) / all(...) of a generator over `list(X.values())`."""
+        if len(gen.generators) != 1 or gen.generators[0].ifs or not isinstance(gen.generators[0].target, ast.Name):
+            raise Unsupported("generator expression")
+        var = gen.generators[0].target.id
+        acc = ctx.local(f"$acc{next(self.tmp)}")
+        if fname == "sum":
+            init, step = ("c", 0), lambda r: ("bin", "+", ("v", acc), ("ite", r, ("c", 1), ("c", 0)))
+        else:
+            init, step = ("c", True), lambda r: ("and", [("v", acc), r])
+        loop = ast.For(target=ast.Name(id=var, ctx=ast.Store()), iter=gen.generators[0].iter,
+                       body=[ast.Expr(ast.Name(id="$body", ctx=ast.Load()))], orelse=[])
+        ast.copy_location(loop, gen)
+        for n in ast.walk(loop):
+            n.lineno = getattr(gen, "lineno", 0)
+            n.col_offset = 0
+        # compile the loop by hand: body = acc := step(elt)
+        outer = self
+
+        class _Body(ast.stmt):
+            pass
+        marker = _Body()
+        marker.lineno = loop.lineno
+        loop.body = [marker]
+        saved = getattr(self, "s__Body", None)
+
+        def s_body(s_, c2, k2):
+            return outer.expr(gen.elt, c2, lambda r: Node("assign", target=acc, value=step(r), next=k2()))
+        self.s__Body = s_body
+        try:
+            node = self.s_For(loop, ctx, lambda: k(("v", acc)))
+        finally:
+            if saved is None:
+                del self.s__Body
+        return Node("assign", target=acc, value=init, next=node)
+
     def e_UnaryOp(self, e, ctx, k):
         if isinstance(e.op, ast.Not):
             return self.expr(e.operand, ctx, lambda r: k(("not", r)))
@@ -765,7 +854,18 @@ class Compiler:
         op = {ast.Add: "+", ast.Sub: "-", ast.Mult: "*"}.get(type(e.op))
         if op is None:
             raise Unsupported(f"binary operator {type(e.op).__name__}")
-        return self.expr(e.left, ctx, lambda a: self.expr(e.right, ctx, lambda b: k(("bin", op, a, b))))
+
+        def both(a, b):
+            if op == "+" and a[0] == "list":
+                # readers + worker_sentinels: the argument of multiprocessing.connection.wait()
+                if b[0] == "tuple" and b[1] and b[1][0] == ("c", "maskof"):
+                    return k(("tuple", [("c", "waitset"), a, b[1][2]]))
+                if b[0] == "list":
+                    return k(("list", a[1] + b[1]))
+            if a[0] == "c" and b[0] == "c" and isinstance(a[1], (int, float)) and isinstance(b[1], (int, float)):
+                return k(("c", {"+": a[1] + b[1], "-": a[1] - b[1], "*": a[1] * b[1]}[op]))
+            return k(("bin", op, a, b))
+        return self.expr(e.left, ctx, lambda a: self.expr(e.right, ctx, lambda b: both(a, b)))
 
     def e_Compare(self, e, ctx, k):
         if len(e.ops) != 1:
@@ -797,6 +897,12 @@ class Compiler:
                 r = ("or", [("cmp", "==", a, x) for x in b[1]]) if b[1] else ("c", False)
                 return k(r if op == "in" else ("not", r))
             raise Unsupported("`in` on dynamic container")
+        if a[0] == "c" and b[0] == "c" and isinstance(a[1], (int, float)) and isinstance(b[1], (int, float)) \
+                and not isinstance(a[1], bool) and not isinstance(b[1], bool) and op in ("<", "<=", ">", ">=", "==", "!="):
+            return k(("c", {"<": a[1] < b[1], "<=": a[1] <= b[1], ">": a[1] > b[1], ">=": a[1] >= b[1],
+                            "==": a[1] == b[1], "!=": a[1] != b[1]}[op]))
+        if a[0] == "c" and b[0] == "c" and isinstance(a[1], str) and isinstance(b[1], str) and op in ("==", "!="):
+            return k(("c", (a[1] == b[1]) == (op == "==")))
         return k(("cmp", op, a, b))
 
     def e_BoolOp(self, e, ctx, k):
@@ -825,6 +931,8 @@ class Compiler:
                 def after(o):
                     if o[0] == "o":
                         return self.call_method(ObjRef(o[1]), e.func.attr, args, kwargs, ctx, k)
+                    if o[0] == "c" and isinstance(o[1], str):
+                        return k(("c", "<text>"))
                     if o[0] == "rec" and o[1].startswith("Ref:"):
                         return self.deref(o, ctx, lambda oo: self.call_method(ObjRef(oo[1]), e.func.attr, args, kwargs, ctx, k),
                                           "AttributeError")
@@ -845,6 +953,8 @@ class Compiler:
         def eval_args(i, acc):
             if i == len(e.args):
                 return eval_kw(0, acc, {})
+            if isinstance(e.args[i], ast.GeneratorExp):
+                return eval_args(i + 1, acc + [("c", "<genexp>")])
             if isinstance(e.args[i], ast.Starred):
                 def spread(r):
                     if r[0] != "tuple":
@@ -878,6 +988,10 @@ class Compiler:
             return self.inline(fdef, args, kwargs, ctx, k, name)
         if g is not None and g[0] == "prim":
             return self.prim_call(g[1], g[2], args, kwargs, ctx, k)
+        if name in ("sum", "all") and len(e.args) == 1 and isinstance(e.args[0], ast.GeneratorExp):
+            return self.reduce_over_values(name, e.args[0], ctx, k)
+        if name in ("getattr", "type", "str", "repr"):
+            return k(("c", "<opaque>"))
         if name == "len" and len(args) == 1 and args[0][0] == "o":
             return self.prim_call(args[0][1], "__len__", [], {}, ctx, k)
         if name == "isinstance" and len(args) == 2:
